@@ -45,8 +45,20 @@ func thr23(tb *TermBuilder, K *Term) *Term {
 
 func runC17(cx *CheckCtx) {
 	w := cx.W
+	nCalls := voteProtocol(cx, []string{"Cheque", "AlphabetUpdate", "SetConfig", "InnerRingCandidateRemove"})
+	cx.count("vote_call_sites", nCalls)
+	cx.floor("vote_call_sites", 4)
+	runC17Common(cx, w)
+}
+
+// voteProtocol: the per-method rules of a notary-disabled vote (the voter is the
+// witnessed member, the action fires exactly at the threshold, the ballot of the
+// same id is removed first). Used by C17 for every voting method and by C19 for
+// Cheque (a cheque is paid once).
+func voteProtocol(cx *CheckCtx, names []string) int {
+	w := cx.W
 	nCalls := 0
-	for _, name := range []string{"Cheque", "AlphabetUpdate", "SetConfig", "InnerRingCandidateRemove"} {
+	for _, name := range names {
 		m := cx.method("neofs", name)
 		if m == nil {
 			continue
@@ -177,9 +189,10 @@ func runC17(cx *CheckCtx) {
 		}
 		cx.decide(okRm, "threshold", key+"/remove-votes", "the ballot of the same id is removed before the action", "the accepted decision's ballot is not removed (or another id's is): the action fires again with the next vote", rm.Where(w))
 	}
-	cx.count("vote_call_sites", nCalls)
-	cx.floor("vote_call_sites", 4)
+	return nCalls
+}
 
+func runC17Common(cx *CheckCtx, w *World) {
 	// ---- common.Vote / TryPurgeVotes
 	voteFn := cx.pkgFunc("common", "Vote")
 	purgeFn := cx.pkgFunc("common", "TryPurgeVotes")
@@ -417,6 +430,8 @@ func resultChecked(a *Analysis, s *Site, after *Site) bool {
 
 func runC19(cx *CheckCtx) {
 	w := cx.W
+	// a cheque is paid once: the ballot of the same id is removed before the payout
+	voteProtocol(cx, []string{"Cheque"})
 	const maxGAS = int64(9000) * 1_0000_0000
 	// ---- D1 deposit
 	if m := cx.method("neofs", "OnNEP17Payment"); m != nil {
